@@ -52,6 +52,8 @@ def gen_case(rng):
     if rng.random() < 0.3: both("TR(%d)" % rng.choice([1, 2, 3]))
     if rng.random() < 0.8: slur()
     if rng.random() < 0.5: both(rng.choice(["o4", "v90", "q80", "l8", "c", "r8", "d e"]))
+    # a bend-sensitivity command of the user (an RPN message of its own) does not change how a slur is rendered
+    if rng.random() < 0.25: both(rng.choice(["BR(%d)", "BendRange(%d)", "PitchBendSensitivity(%d)"]) % rng.choice([1, 2, 5, 11, 12, 24]))
     ngroups = rng.choice([1, 1, 2, 3])
     for gi in range(ngroups):
         if gi > 0 and rng.random() < 0.6: slur()
